@@ -12,12 +12,14 @@ import (
 	"encoding/binary"
 	"encoding/hex"
 	"encoding/pem"
+	"errors"
 	"fmt"
 	"math/big"
 	"net"
 	"os"
 	"os/exec"
 	"path/filepath"
+	"strconv"
 	"strings"
 	"sync"
 	"syscall"
@@ -169,8 +171,7 @@ func startVictim(realBinary bool, maxV, hosts, conns int, useTLS bool) (*victim,
 			cl.Close()
 			return nil, fmt.Errorf("VERIF_BIN not set")
 		}
-		v.addr = fmt.Sprintf("127.0.0.1:%d", freePort())
-		args := []string{"--bind", v.addr, "--contact-points", cl.HostIP(0), "--port", fmt.Sprint(cl.Port), "--num-conns", fmt.Sprint(conns),
+		args := []string{"--bind", "127.0.0.1:0", "--contact-points", cl.HostIP(0), "--port", fmt.Sprint(cl.Port), "--num-conns", fmt.Sprint(conns),
 			"--protocol-version", protogen.VersionName(primitive.ProtocolVersion(ctl)), "--max-protocol-version", protogen.VersionName(primitive.ProtocolVersion(maxV))}
 		if useTLS {
 			certFile, keyFile, err := c17ServerCert()
@@ -187,6 +188,23 @@ func startVictim(realBinary bool, maxV, hosts, conns int, useTLS bool) (*victim,
 		if err := v.cmd.Start(); err != nil {
 			cl.Close()
 			return nil, err
+		}
+		early := make(chan struct{})
+		go func() { _ = v.cmd.Wait(); close(early); close(v.done) }()
+		exited := func() bool {
+			select {
+			case <-early:
+				return true
+			default:
+				return false
+			}
+		}
+		if v.addr = listenAddr(v.out, exited, 10*time.Second); v.addr == "" {
+			if !exited() {
+				_ = v.cmd.Process.Kill()
+			}
+			cl.Close()
+			return nil, fmt.Errorf("cql-proxy did not start listening: %s", v.out.String())
 		}
 	} else {
 		v.kind = "proxyhost"
@@ -220,7 +238,9 @@ func startVictim(realBinary bool, maxV, hosts, conns int, useTLS bool) (*victim,
 			return nil, fmt.Errorf("proxyhost did not start: %s", v.out.String())
 		}
 	}
-	go func() { _ = v.cmd.Wait(); close(v.done) }()
+	if !realBinary {
+		go func() { _ = v.cmd.Wait(); close(v.done) }()
+	}
 	deadline := time.Now().Add(10 * time.Second)
 	for {
 		if !v.alive() {
@@ -284,11 +304,25 @@ func (v *victim) canaryCheck(what string) *evid.Fail {
 			return f
 		}
 		// 0. the listener still accepts and serves new connections
-		if fc, err := v.dial(); err != nil {
+		// (a TCP connect that merely times out is retried inside rawcli: the kernel drops SYNs on its own under the
+		// connection churn of this harness; the proxy can only cause that by not accepting until its backlog is full)
+		fc, err := v.dial()
+		if err != nil {
 			if f := crashed(); f != nil {
 				return f
 			}
-			ssOut, _ := exec.Command("ss", "-ltn", "sport", "=", ":"+v.addr[strings.LastIndex(v.addr, ":")+1:]).CombinedOutput()
+			ssOut, _ := exec.Command("ss", "-ltnH", "sport", "=", ":"+v.addr[strings.LastIndex(v.addr, ":")+1:]).CombinedOutput()
+			var te *rawcli.ErrTCPConnect
+			if errors.As(err, &te) {
+				if fs := strings.Fields(string(ssOut)); len(fs) >= 3 {
+					recvQ, _ := strconv.Atoi(fs[1])
+					backlog, _ := strconv.Atoi(fs[2])
+					if recvQ < backlog {
+						// the listener's accept queue is not full: the proxy is accepting, the SYNs were lost below it
+						return evid.Failf("harness-stall", "TCP connects to the proxy time out although its accept queue holds %d of %d (kernel TCP stack overloaded by connection churn)", recvQ, backlog)
+					}
+				}
+			}
 			return evid.Failf("canary-cannot-connect", "a new client cannot connect after %s: %v\nlistener (ss -ltn): %s\n%s", what, err, strings.TrimSpace(string(ssOut)), v.goroutines())
 		} else {
 			_, ferr := fc.Fence(ver, posWait)
